@@ -131,6 +131,12 @@ func eRuleText(r eRule) string {
 		sb.WriteString("  return 1/0\n")
 	case "bare":
 		sb.WriteString("  return\n")
+	case "panic1": // non-boolean condition: reflect panics inside IfStmt
+		sb.WriteString("  if 5 {\n    zz = 1\n  }\n")
+	case "panic2": // ! on a non-boolean in the return expression
+		sb.WriteString("  return !5\n")
+	case "loop": // unbounded for loop: cut off after maxExecuteNum iterations
+		sb.WriteString("  for i = 0; true; i += 1 {\n  }\n")
 	}
 	sb.WriteString("end\n")
 	return sb.String()
